@@ -341,3 +341,37 @@ Definition jnorm (j : json) : json :=
                  end) fs)
   | _ => j
   end.
+
+(* ---------------------------------------------------------------- pickle / copy of a unit
+   pickle, copy and deepcopy rebuild an object as cls.__new__(cls, *newargs) followed by the application of the pickled
+   state (the slots: prefix, factors, dimension, names, symbols).  __new__ interns by (prefix, factors); since 36300c5
+   __setstate__ leaves an object that is already initialised alone.  `guarded` is that guard (false = the code before
+   the repair, where the pickled names overwrote the live object's). *)
+Record preg := MkPR { p_tbl : table; p_names : list (list positive) }.    (* names (and symbols) of each handle *)
+Record pdoc := MkPD { pd_args : unit3; pd_names : list positive }.
+
+Definition pdump (r : preg) (h : nat) : option pdoc :=
+  match nth_error (p_tbl r) h, nth_error (p_names r) h with
+  | Some x, Some ns => Some (MkPD x ns)
+  | _, _ => None
+  end.
+
+Fixpoint set_nth {A} (l : list A) (n : nat) (x : A) : list A :=
+  match l, n with
+  | [], _ => []
+  | _ :: t, O => x :: t
+  | y :: t, S n' => y :: set_nth t n' x
+  end.
+
+Definition pload (guarded : bool) (r : preg) (d : pdoc) : preg * nat :=
+  match find_key (pd_args d) (p_tbl r) with
+  | Some h => if guarded then (r, h) else (MkPR (p_tbl r) (set_nth (p_names r) h (pd_names d)), h)
+  | None => (MkPR (p_tbl r ++ [pd_args d]) (p_names r ++ [pd_names d]), length (p_tbl r))
+  end.
+
+(* declaring a further name for handle h (Unit.alias / derive) *)
+Definition pname (r : preg) (h : nat) (n : positive) : preg :=
+  match nth_error (p_names r) h with
+  | Some ns => MkPR (p_tbl r) (set_nth (p_names r) h (ns ++ [n]))
+  | None => r
+  end.
